@@ -247,6 +247,80 @@ func runC04(c *Ctx) {
 			}
 		}
 	}
+	// COSE_Sign whose signature slots share header objects (one ProtectedHeader map used by several
+	// signatures, or one *Signature listed twice): whatever Sign does, no signer may be handed bytes whose
+	// protected alg differs from its own, and without external data none may sign bytes without alg.
+	for _, n := range []int{2, 3} {
+		for _, share := range []string{"protected-map", "signature-pointer", "headers-by-value"} {
+			for _, preset := range []string{"absent", "first-signer-alg", "last-signer-alg"} {
+				for _, ext := range exts {
+					for _, algset := range [][]cose.Algorithm{{cose.AlgorithmES256, cose.AlgorithmPS256, cose.AlgorithmEdDSA}, {cose.AlgorithmES256, cose.AlgorithmES256, cose.AlgorithmES384}, {cose.AlgorithmEdDSA, cose.AlgorithmEdDSA, cose.AlgorithmEdDSA}} {
+						algs := algset[:n]
+						shared := cose.ProtectedHeader{}
+						switch preset {
+						case "first-signer-alg":
+							shared[int64(1)] = algs[0]
+						case "last-signer-alg":
+							shared[int64(1)] = algs[n-1]
+						}
+						m := &cose.SignMessage{Headers: cose.Headers{Protected: cose.ProtectedHeader{}, Unprotected: cose.UnprotectedHeader{}}, Payload: []byte("p")}
+						one := &cose.Signature{Headers: cose.Headers{Protected: shared, Unprotected: cose.UnprotectedHeader{}}}
+						for j := 0; j < n; j++ {
+							switch share {
+							case "protected-map":
+								m.Signatures = append(m.Signatures, &cose.Signature{Headers: cose.Headers{Protected: shared, Unprotected: cose.UnprotectedHeader{}}})
+							case "signature-pointer":
+								m.Signatures = append(m.Signatures, one)
+							default:
+								m.Signatures = append(m.Signatures, &cose.Signature{Headers: one.Headers})
+							}
+						}
+						spies := make([]*mon.SpySigner, n)
+						signers := make([]cose.Signer, n)
+						for j := range spies {
+							spies[j] = &mon.SpySigner{Alg: algs[j]}
+							signers[j] = spies[j]
+						}
+						cls := fmt.Sprintf("shared/%s/n=%d/preset=%s/ext=%s/algs=%v", share, n, preset, gen.ExternalClass(ext), algs)
+						in := map[string]any{"family": "shared-header-objects", "cell": cls}
+						var err error
+						if guard(rec, "SignMessage.Sign(shared)", in, func() { err = m.Sign(gen.Entropy, ext, signers...) }) {
+							continue
+						}
+						rec.Eval(1)
+						rec.Class(cls)
+						for j, sp := range spies {
+							for _, tbs := range sp.Got {
+								a, has := algInTBS(tbs, 2)
+								rec.Event("shared:key-call-observed")
+								if has && a != int64(algs[j]) {
+									rec.Violate("key-invoked", "shared/"+share, fmt.Sprintf("signer %d (alg %d) was handed a Sig_structure whose sign_protected says alg %d (Sign returned %v)", j, int64(algs[j]), a, err), in)
+								}
+								if !has && len(ext) == 0 {
+									rec.Violate("key-invoked", "shared/"+share+"/no-alg", fmt.Sprintf("signer %d signed bytes without alg although there is no external data", j), in)
+								}
+							}
+						}
+						if err == nil {
+							if wire, merr := m.MarshalCBOR(); merr == nil {
+								if t, perr := refcbor.Parse(wire); perr == nil && len(t.Kids) == 1 && len(t.Kids[0].Kids) == 4 {
+									for j, sg := range t.Kids[0].Kids[3].Kids {
+										if len(sg.Kids) == 3 && sg.Kids[0].Major == refcbor.Bstr {
+											if a, has := algInContent(sg.Kids[0].Str); has && j < n && a != int64(algs[j]) {
+												rec.Violate("key-invoked", "shared/"+share+"/emitted", fmt.Sprintf("emitted signature %d carries alg %d, its signer was %d", j, a, int64(algs[j])), in)
+											}
+										}
+									}
+								}
+							}
+						} else {
+							rec.Event("shared:sign-refused")
+						}
+					}
+				}
+			}
+		}
+	}
 	rec.Exhaustive = !c.Thorough
 	rec.Require("key-call-observed", 1000)
 	rec.Require("key-call-forbidden", 1000)
